@@ -34,6 +34,34 @@ def _has_quant(e):
     return False
 
 
+_symcache = {}
+
+
+def _symbols(e):
+    k = e.get_id()
+    if k in _symcache:
+        return _symcache[k]
+    out = set()
+    seen = set()
+    stack = [e]
+    while stack:
+        x = stack.pop()
+        i = x.get_id()
+        if i in seen:
+            continue
+        seen.add(i)
+        if z3.is_quantifier(x):
+            stack.append(x.body())
+            continue
+        if z3.is_app(x):
+            d = x.decl()
+            if d.kind() == z3.Z3_OP_UNINTERPRETED:
+                out.add(d.name())
+            stack.extend(x.children())
+    _symcache[k] = out
+    return out
+
+
 def exc_name(name):
     return name in BUILTIN_EXC or name.endswith('Error') or name.endswith('Exception')
 
@@ -111,7 +139,7 @@ class VC(Executor, ExprMixin, StmtMixin, CallMixin):
         res.span = list(fi.span())
         res.file = os.path.relpath(fi.path, self.repo.root)
         argnames = [a.arg for a in fi.node.args.posonlyargs + fi.node.args.args + fi.node.args.kwonlyargs]
-        missing = [p for p in c.params if p not in argnames and not p.startswith('$')]
+        missing = [p for p in c.params if p not in argnames and not p.startswith('$')] if not c.slice_names else []
         if missing:
             res.status = 'unbound'
             res.reason = f"contract parameters {missing} not in signature {argnames}"
@@ -200,6 +228,14 @@ class VC(Executor, ExprMixin, StmtMixin, CallMixin):
         for n, d in zip([x.arg for x in a.kwonlyargs], a.kw_defaults):
             if vars_.get(n) is None and d is not None:
                 vars_[n] = self.ev(d, dfr)
+        if c.slice_names:
+            vars_ = {n: v for n, v in vars_.items() if v is not None}
+            for n, ts in c.params.items():
+                if not n.startswith('$') and n not in vars_:
+                    ty = parse_type(ts)
+                    vars_[n] = fresh(ty, n)
+                    self.assume_type(vars_[n], ty)
+            names = []
         for n in names:
             if vars_.get(n) is None:
                 raise Unsupported(f"parameter {n} of {fi.qualname} has no declared type in the contract")
@@ -240,9 +276,17 @@ class VC(Executor, ExprMixin, StmtMixin, CallMixin):
             fr.out = VOpaque(None, 'emptyout')
             if c.yields:
                 fr.out = VSeq(z3.IntVal(0), fresh(parse_type(c.yields), 'yield0', 1), 'list')
+        body = fi.node.body
+        if c.slice_names:
+            from .stmt import assigned_names
+            wanted = set(c.slice_names)
+            body = [st for st in fi.node.body if assigned_names([st]) & wanted]
+            if not body:
+                raise Unsupported(f"slice on {sorted(wanted)} selects no statement")
+            self.slice_lines = [st.lineno for st in body]
         try:
             try:
-                self.ex_block(fi.node.body, fr)
+                self.ex_block(body, fr)
                 ret = VNone()
             except ReturnSig as r:
                 ret = r.value
@@ -268,6 +312,10 @@ class VC(Executor, ExprMixin, StmtMixin, CallMixin):
                 ret = coerce(ret, VOptInt(True, 0))
         sf = self.spec_env(fr, {'result': ret})
         sf.old_heap = old_heap
+        # in postconditions parameter names denote the values at entry (parameters may be re-assigned in the body)
+        for n in c.params:
+            if n in fr.entry_vars and not c.slice_names:
+                sf.vars[n] = fr.entry_vars[n]
         for k, post in enumerate(c.ensures):
             g = self.ev_spec(post, sf)
             self.oblige('post', g, fr, None, tag=str(k), info=post)
@@ -387,6 +435,22 @@ class VC(Executor, ExprMixin, StmtMixin, CallMixin):
             s0.add(z3.Not(ob.goal))
             if s0.check() == z3.unsat:
                 return 'discharged', 'z3-5.1.0', None
+        # relevance-ranked subsets of the quantified hypotheses (sound: dropping hypotheses), smallest first
+        quants = [p for p in ob.pc if _has_quant(p)]
+        if len(quants) > 25:
+            ranked = self.rank_hypotheses(ob.goal, ob.pc, quants)
+            for nsel in (15, 40, 100, 250):
+                if nsel >= len(quants):
+                    break
+                s1 = z3.Solver()
+                s1.set('timeout', min(4000, self.budget_ms))
+                for p in qf:
+                    s1.add(p)
+                for p in ranked[:nsel]:
+                    s1.add(p)
+                s1.add(z3.Not(ob.goal))
+                if s1.check() == z3.unsat:
+                    return 'discharged', 'z3-5.1.0', None
         s = z3.Solver()
         s.set('timeout', self.budget_ms)
         for p in ob.pc:
@@ -418,6 +482,23 @@ class VC(Executor, ExprMixin, StmtMixin, CallMixin):
                 except Exception:
                     pass
         return 'undecided', 'z3-5.1.0+cvc5+z3-4.8', None
+
+    def rank_hypotheses(self, goal, pc, quants):
+        """Order quantified hypotheses by weighted overlap of uninterpreted symbols with the goal (rare symbols count
+        more), with one round of closure through the best-ranked hypotheses."""
+        freq = {}
+        for p in pc:
+            for sy in _symbols(p):
+                freq[sy] = freq.get(sy, 0) + 1
+        G = set(_symbols(goal))
+
+        def score(p, G):
+            return sum(1.0 / freq.get(sy, 1) for sy in _symbols(p) if sy in G)
+        first = sorted(quants, key=lambda p: -score(p, G))
+        G2 = set(G)
+        for p in first[:12]:
+            G2 |= _symbols(p)
+        return sorted(quants, key=lambda p: -(2 * score(p, G) + score(p, G2)))
 
     def model_summary(self, m):
         out = {}
